@@ -21,7 +21,7 @@ from simcore.rng import Rng
 REC_NAMES = ["foo", "foo2", "foo-bar", "fo", "foo-bar2", "Foo"]
 MODES = ["r", "r+", "a", "w", "w-", "x"]
 
-LIFE_OPS = ("open", "close", "commit", "create_patch", "discard", "merge", "check_history", "apply_tail")
+LIFE_OPS = ("open", "close", "commit", "create_patch", "discard", "merge", "check_history", "apply_tail", "open_prefix")
 
 
 EXTRA_OPS = {}  # op kind -> handler(world, op); filled by other engines (sites)
@@ -558,8 +558,17 @@ class World:
             self._perm_state = perm
         self.count_fault("reopen_mode")
         self.matrix_cell(mode, r)
+        kwargs = {}
+        if op.get("manifest_kw") and r.scls == "mf" and was_present and last_committed and mode in ("r", "r+", "a"):
+            # the public keyword naming the manifest explicitly (here: the default location)
+            from pathlib import Path as _P
+
+            mpath = os.path.join(self.sut, r.disk[-1]["file"] + "mf.json")
+            if os.path.exists(mpath):
+                kwargs["manifest_file"] = _P(mpath)
+                self.probe("open_with_manifest_file_keyword")
         try:
-            obj = cls(arg, mode)
+            obj = cls(arg, mode, **kwargs)
             ok, exc = True, None
         except SimRunaway:
             raise
@@ -642,6 +651,55 @@ class World:
         # the view after (re)opening must be the view before closing == reference
         self.check_view(r, "C03", "reopen-view", extra=f"after open({by},{mode!r})")
         return "ok"
+
+    def op_open_prefix(self, op):
+        """Open only the oldest containers of a closed, fully committed record by explicit
+        list: read-only it must show the state of that commit; writable it must be refused
+        (the next patch file exists already) without touching anything."""
+        from pathlib import Path
+
+        r = self.rec(op["rec"])
+        if r.is_open or not r.exists or not all(c["committed"] for c in r.disk) or len(r.disk) < 2:
+            return "skip"
+        j = 1 + int(op.get("j", 0)) % (len(r.disk) - 1)
+        keep = r.disk[: len(r.disk) - j]
+        mode = op.get("mode", "r")
+        files = [Path(os.path.join(self.sut, c["file"])) for c in keep]
+        if op.get("perm") is not None:
+            random.Random(op["perm"]).shuffle(files)
+        before = self.listing()
+        cls = self.klass(r)
+        self.probe(f"open_prefix:{mode}")
+        try:
+            obj = cls(files, mode)
+            ok, exc = True, None
+        except Exception as e:
+            obj, ok, exc = None, False, e
+        after = self.listing()
+        if mode == "r":
+            if not ok:
+                raise Violation("C02", "historic-set-unopenable", f"the first {len(keep)} containers of a committed chain do not open read-only: {type(exc).__name__}: {exc}")
+            try:
+                got, errs = V.dump_tree(obj)
+                want = next((c["dump"] for c in r.commits if c["files"] == [c2["file"] for c2 in keep]), None)
+                if want is not None and (errs or got != want):
+                    raise Violation("C02", "historic-view", f"the first {len(keep)} containers show another state than at their commit: {errs[:2] or V.diff_dumps(want, got)}")
+            finally:
+                obj.close()
+            if before != after:
+                raise Violation("C03", "r-open-touched-files", f"read-only open of a chain prefix changed files: {self.listing_diff(before, after)}")
+            return "ok"
+        # writable: the name of the next patch is taken -> must be refused, nothing may change
+        if ok:
+            try:
+                obj.close(commit=False)
+            except Exception:
+                pass
+        if before != self.listing():
+            raise Violation("C02", "committed-bytes-changed", f"open(mode={mode!r}) of the first {len(keep)} of {len(r.disk)} containers changed files: {self.listing_diff(before, self.listing())}", shape="prefix-open")
+        if ok:
+            raise Violation("C03", "open-mode", f"open(mode={mode!r}) of a proper prefix of the chain succeeded although the next patch file exists", shape="prefix-open")
+        return f"raise:{type(exc).__name__}"
 
     def next_index(self, r):
         return r.obj.ih5_meta[len(r.disk) - 1].patch_index + 1 if r.is_open else len(r.disk)
@@ -1096,6 +1154,8 @@ class World:
             out = self.op_merge(op)
         elif k == "check_history":
             out = self.op_check_history(op)
+        elif k == "open_prefix":
+            out = self.op_open_prefix(op)
         elif k in EXTRA_OPS:
             out = EXTRA_OPS[k](self, op)
         else:
@@ -1206,6 +1266,8 @@ class IH5StoreEngine:
                 op["perm"] = g.randrange(1000)
             if mix and g.random() < 0.2:
                 op["as"] = g.choice(["ih5", "mf"])
+            if g.random() < 0.12:
+                op["manifest_kw"] = True
             emit(op)
             # shadow update (expected semantics)
             if op["by"] == "list":
@@ -1280,6 +1342,9 @@ class IH5StoreEngine:
             s = st[i]
             roll = g.random()
             if not s["open"]:
+                if profile in ("restart", "immutable") and s["exists"] and s["committed_last"] and s["n"] >= 2 and g.random() < 0.3:
+                    emit({"op": "open_prefix", "rec": i, "mode": g.choice(["r", "r", "r+", "a"]), "j": g.randrange(4), "perm": g.randrange(100)})
+                    continue
                 if profile == "restart" and roll < 0.25:
                     j = g.choice(recs)
                     if not st[j]["open"]:
